@@ -12,11 +12,15 @@ import (
 
 	"github.com/anishathalye/porcupine"
 	"github.com/herohde/morlock/pkg/board"
+	"github.com/herohde/morlock/pkg/engine"
 	"github.com/herohde/morlock/pkg/eval"
 	"github.com/herohde/morlock/pkg/search"
+	"github.com/herohde/morlock/pkg/search/searchctl"
 	"github.com/herohde/morlock/pkg/verifhook"
+	"github.com/seekerror/stdlib/pkg/lang"
 
 	"verif/fw"
+	"verif/gen"
 )
 
 // C17 — the transposition table under concurrent use.
@@ -52,6 +56,9 @@ func mkPayload(h board.ZobristHash, writer, seq int, r *rand.Rand) ttPayload {
 		p.bound = search.Bound(y & 1)
 		p.depth, p.ply = int(y>>8)%4, int(y>>16)%4
 		p.move = board.Move{From: board.Square((y >> 24) & 63), To: board.Square((y >> 32) & 63)}
+	}
+	if (x>>40)%4 == 0 {
+		p.move = board.Move{} // a store without a best move (what a search writes for a leaf)
 	}
 	// the score carries the tag twice: Pawns = writer*65536+seq, Mate = a checksum of it
 	p.score = eval.Score{Type: eval.Heuristic, Mate: tagSum(writer, seq), Pawns: eval.Pawns(float32(writer*65536 + seq))}
@@ -397,6 +404,81 @@ func runC17(c *fw.Ctx, cs fw.Case) {
 				c.Violate("tt:used-range", "Used() left [0,1] during the fill")
 			}
 		}
+	case "enginefill":
+		// the fill fraction as an engine reports it (PV.Hash, UCI hashfull) over several games on one engine:
+		// a new game starts from an empty table, so each analysis must report, depth by depth, the fill a
+		// freshly started engine reports for the same analysis
+		fills := func(e *engine.Engine, h gen.Hist, depth int) (map[int]float64, bool) {
+			if e.Reset(ctx, h.Start.FEN()) != nil {
+				return nil, false
+			}
+			for _, m := range h.Moves {
+				if e.Move(ctx, m.String()) != nil {
+					return nil, false
+				}
+			}
+			out, err := e.Analyze(ctx, searchctl.Options{DepthLimit: lang.Some(uint(depth))})
+			if err != nil {
+				return nil, false
+			}
+			ret := map[int]float64{}
+			pvs, closed := drain(out, 120*time.Second)
+			e.Halt(ctx)
+			if !closed {
+				return nil, false
+			}
+			for _, pv := range pvs {
+				ret[pv.Depth] = pv.Hash
+			}
+			return ret, true
+		}
+		for i := 0; i < cs.N; i++ {
+			rc := &recipes[r.Intn(len(recipes))]
+			opts := engine.Options{Hash: uint([]int{1, 1, 2, 3, 4}[r.Intn(5)])}
+			e := rc.newEngine(ctx, opts, 0, nil)
+			games := 3 + r.Intn(3)
+			var prev gen.Hist
+			for g := 0; g < games; g++ {
+				h, _ := c11Root(r, i+g+cs.Idx)
+				if g > 0 && r.Intn(2) == 0 {
+					h = prev // the same game again
+				}
+				prev = h
+				b, ok := boardOf(h)
+				if !ok || legalCount(b) == 0 {
+					continue
+				}
+				n0, n1 := branching(b, 0)
+				depth := depthFor(n0, n1, 4000, 4)
+				if rc.name == "turochamp" && depth > 2 {
+					depth = 2
+				}
+				got, ok1 := fills(e, h, depth)
+				want, ok2 := fills(rc.newEngine(ctx, opts, 0, nil), h, depth)
+				if !ok1 || !ok2 {
+					continue
+				}
+				c.Eval(1)
+				c.Count("engine_fill_games", 1)
+				if g > 0 {
+					c.Count("engine_fill_later_games", 1)
+				}
+				what := fmt.Sprintf("engine %s hash %d MB, game %d of %d on the same engine, depth %d, %s", rc.name, opts.Hash, g+1, games, depth, histDesc(h))
+				c.Distinct(what)
+				for d, f := range got {
+					if f < 0 || f > 1 {
+						c.Violate("tt:used-range", "reported fill %v at depth %d outside [0,1]: %s", f, d, what)
+					}
+					if f > 0 {
+						c.Count("engine_fill_nonzero", 1)
+					}
+					if w, ok := want[d]; ok && w != f {
+						c.Violate("tt:engine-fill", "fill %v reported at depth %d, a freshly started engine reports %v for the same analysis (slots counted that are not in use, or counted twice): %s", f, d, w, what)
+						break
+					}
+				}
+			}
+		}
 	case "search":
 		// several searches share one table concurrently; each must still return the table-less value
 		var pd []searchCfg
@@ -470,7 +552,7 @@ func init() {
 		Level:       "exploration",
 		RaceKinds:   map[string]bool{"lin": true, "stress": true, "fill": true, "search": true},
 		Technique:   "race detector + offline linearizability checking (porcupine) of recorded Read/Write histories against a sequential slot model, tagged payloads for tuple integrity, quiescent-point checks of the fill counter, hook-point perturbation of the CAS loop",
-		Rule:        "histories: tables of 1-8 slots, 2-6 clients x 30-90 operations (55% Write / 45% Read) over 1-4 hashes per slot, call/return stamped from one atomic counter, checked per slot with porcupine (timeout => inconclusive); stress: 4-16 clients x 500-3500 operations with tuple-integrity, final-replacement-value and fill-count checks; fill: every slot of 2^10..2^14-slot tables written by 8-16 clients, Used() must be exactly 1; search: 2-5 concurrent alpha-beta searches sharing a table must return the table-less value; the same histories run in the plain build (faster, more interleavings) and the -race build; yields/sleeps injected at tt.read / tt.write.loaded / tt.write.swapped; distinct = distinct histories by (event count, accepted stores, hits)",
+		Rule:        "enginefill: 3-5 games in a row on one engine (four recipes, hash 1-4 MB): the fill reported with every iteration is in [0,1] and equals, depth by depth, what a freshly started engine reports for the same analysis; histories: tables of 1-8 slots, 2-6 clients x 30-90 operations (55% Write / 45% Read) over 1-4 hashes per slot, call/return stamped from one atomic counter, checked per slot with porcupine (timeout => inconclusive); stress: 4-16 clients x 500-3500 operations with tuple-integrity, final-replacement-value and fill-count checks; fill: every slot of 2^10..2^14-slot tables written by 8-16 clients, Used() must be exactly 1; search: 2-5 concurrent alpha-beta searches sharing a table must return the table-less value; the same histories run in the plain build (faster, more interleavings) and the -race build; yields/sleeps injected at tt.read / tt.write.loaded / tt.write.swapped; distinct = distinct histories by (event count, accepted stores, hits)",
 		Assumptions: []string{"sequential model: a slot holds nothing or (hash, payload, value); Write stores iff value(new) >= value(current) and reports it; Read(h) returns the payload iff the slot's hash is h", "porcupine v1.3.0"},
 		Timeout:     minutes(15, 120),
 		Cases: func(tier string, seed int64) []fw.Case {
@@ -479,11 +561,12 @@ func init() {
 			l = mkCases(l, "stress", 16, seed, pick(tier, 4, 200))
 			l = mkCases(l, "stressplain", 16, seed, pick(tier, 12, 600))
 			l = mkCases(l, "fill", 8, seed, pick(tier, 2, 60))
+			l = mkCases(l, "enginefill", 8, seed, pick(tier, 4, 150))
 			l = mkCases(l, "search", 16, seed, pick(tier, 6, 300))
 			return l
 		},
 		Floors: func(string) map[string]int64 {
-			return map[string]int64{"histories": 1000, "linearizable_histories": 800, "ops": 1000000, "read_hits": 50000, "fills": 10, "concurrent_search_groups": 50}
+			return map[string]int64{"histories": 1000, "linearizable_histories": 800, "ops": 1000000, "read_hits": 50000, "fills": 10, "concurrent_search_groups": 50, "engine_fill_later_games": 40, "engine_fill_nonzero": 40}
 		},
 		Run: runC17,
 	})
